@@ -211,9 +211,10 @@ def _protected_cases(draw):
         top = x
         ts = [ts[2], ts[3], ts[4], ts[0], ts[1]]
     elif why == 'third-relation':
-        ts.append([x, draw(st.sampled_from([':polarity', ':ARG3', ':mod', ':time'])), draw(st.sampled_from(['-', 'b', 'a', '"s"']))])
+        ts.insert(draw(st.integers(3, len(ts))), [x, draw(st.sampled_from([':polarity', ':ARG3', ':mod', ':time'])), draw(st.sampled_from(['-', 'b', 'a', '"s"']))])
     else:
-        ts.append([draw(st.sampled_from(['a', 'b'])), draw(st.sampled_from([':ARG0', ':mod', ':topic'])), x])
+        # the reference may come before or after the node's own triples (a forward re-entrancy in the text)
+        ts.insert(draw(st.integers(1, len(ts))), [draw(st.sampled_from(['a', 'b'])), draw(st.sampled_from([':ARG0', ':mod', ':topic'])), x])
     if draw(st.booleans()) and why != 'top':
         # written the usual way: hang it under a, decode to get markers
         pass
